@@ -91,20 +91,7 @@ def run(rep, tier, pool, variants=("shipped",)):
         "every input is non-trivial; distinct by (text, mode)"
     )
     cases = build_inputs(tier)
-    # both entry points in a child interpreter whose locale is not UTF-8: whatever is raised must still be a SyntaxError
     from harness.props import c11, c12
-
-    nonascii = ["# caf\u00e9\nx = = 1\n", "s = '\u00e9' +\n", "\u00f1 = (1 2)\n", "def \u00fc(:\n", "x = '\u00df'\ny = [1,\n", "$(echo \u00f1\n", "f!(\u00e9]\n"]
-    loc_files = [("locale", s) for s in nonascii] + [("locale", "# \u00fc\n" + s) for s in c11.INVALID_SNIPPETS[:40]]
-    for env_name, res in c12.run_children(loc_files, [e for e in c12.ENVS if e[0] in ("C", "latin1")]).items():
-        for fname, a, b in res:
-            src = loc_files[int(fname[:5])][1]
-            for entry, o in (("parse_file", a), ("parse_string", b)):
-                rep.case((env_name, entry, src), True)
-                rep.count(f"locale:{env_name}:{o['k']}")
-                if o["k"] == "exc" and o.get("cls") != "RecursionError":
-                    rep.violation(f"C03 {entry} under locale {env_name} raised {o.get('cls')}: {short(o.get('msg'), 60)} on {short(src, 50)}",
-                                  {"property": "C03", "input": src, "entry_point": entry, "environment": dict(c12.ENVS)[env_name], "observed": o})
     # the options: version-gated syntax (alone, embedded, damaged) under every py_version
     gated = ["type X = int\n", "def f[T](a): pass\n", "class B[T]: pass\n", "try:\n    pass\nexcept* E:\n    pass\n", "x = 1\ntype Y[T] = T\ny = 2\n", "type X = \n", "def f[T(a): pass\n"]
     vcases = [(s, "exec", "shipped", list(v)) for s in gated for v in [(3, 8), (3, 9), (3, 10), (3, 11), (3, 12), (3, 13), (3,), (4, 0)]]
@@ -131,3 +118,18 @@ def run(rep, tier, pool, variants=("shipped",)):
                 rep.known(fid, f"{o.get('cls')} (first seen: {short(src[:40], 50)})")
                 continue
             rep.violation(f"C03 {o.get('kind')} {o.get('cls')}: {short(o.get('msg'), 60)} on {short(src, 80)}", {"property": "C03", "input": src, "mode": mode, "observed": o, "variant": variant})
+    # both entry points in a child interpreter whose locale is not UTF-8: whatever is raised must still be a SyntaxError
+    nonascii = ["# caf\u00e9\nx = = 1\n", "s = '\u00e9' +\n", "\u00f1 = (1 2)\n", "def \u00fc(:\n", "x = '\u00df'\ny = [1,\n", "$(echo \u00f1\n", "f!(\u00e9]\n"]
+    loc_files = [("locale", s) for s in nonascii] + [("locale", "# \u00fc\n" + s) for s in c11.INVALID_SNIPPETS[:40]]
+    for env_name, res in c12.run_children(loc_files, [e for e in c12.ENVS if e[0] in ("C", "latin1")]).items():
+        for fname, a, b in res:
+            src = loc_files[int(fname[:5])][1]
+            for entry, o in (("parse_file", a), ("parse_string", b)):
+                rep.case((env_name, entry, src), True)
+                rep.count(f"locale:{env_name}:{o['k']}")
+                if o["k"] == "hang":
+                    rep.violation(f"C03 {entry} under locale {env_name}: no termination within 8s on {short(src, 50)}",
+                                  {"property": "C03", "input": src, "entry_point": entry, "environment": dict(c12.ENVS)[env_name], "observed": "hang"})
+                elif o["k"] == "exc" and o.get("cls") != "RecursionError":
+                    rep.violation(f"C03 {entry} under locale {env_name} raised {o.get('cls')}: {short(o.get('msg'), 60)} on {short(src, 50)}",
+                                  {"property": "C03", "input": src, "entry_point": entry, "environment": dict(c12.ENVS)[env_name], "observed": o})
